@@ -74,7 +74,7 @@ def core(self: Ref['mqtt.client.pubsubs.MQTTProtocol']) -> bool:
             and inv_U(self) and inv_X(self) and inv_Q(self) and conn_timers_ok(self))
 
 
-@contract('mqtt.client.pubsubs.MQTTProtocol.doConnectionLost', props=['C11', 'C12', 'C13', 'C07', 'C05', 'C16'], deadline=1500)
+@contract('mqtt.client.pubsubs.MQTTProtocol.doConnectionLost', props=['C11', 'C12', 'C13', 'C07', 'C05', 'C16', 'C06'], deadline=1500)
 def _(self: Ref['mqtt.client.pubsubs.MQTTProtocol'], reason: Any):
     requires(is_obj(self.addr))
     requires(inv(self) and is_none(self.g_firing) and is_list_bytes(self.transport.tr_out))
@@ -99,6 +99,9 @@ def _(self: Ref['mqtt.client.pubsubs.MQTTProtocol'], reason: Any):
     # persistent session: nothing fails, everything is kept for the next connection
     ensures(implies(not self._cleanStart, keys_kept(W(self)) and keys_kept(R(self))
                     and dq_head(Q(self)) == old(dq_head(Q(self))) and dq_tail(Q(self)) == old(dq_tail(Q(self)))))
+    # the inbound QoS 2 window (messages held until PUBREL) survives every loss, whatever the session mode and whether or
+    # not connect() was ever called on this protocol (C06: exactly once per exchange, also across a reconnect)
+    ensures(keys_kept(X(self)))
 
 
 @loop('mqtt.client.pubsubs.MQTTProtocol.doConnectionLost', 0)
@@ -106,6 +109,7 @@ def _():
     invariant(is_obj(self.addr))
     invariant(core(self))
     invariant(ping_untouched(self))
+    invariant(keys_kept(X(self)))
     invariant(keys_kept(W(self)) and keys_kept(R(self)) and keys_kept(S(self)) and keys_kept(U(self)))
     invariant(alarms_progress(S(self), keys, idx))
     invariant(alarms_untouched(U(self)) and alarms_untouched(W(self)) and alarms_untouched(R(self)))
@@ -116,6 +120,7 @@ def _():
     invariant(is_obj(self.addr))
     invariant(core(self))
     invariant(ping_untouched(self))
+    invariant(keys_kept(X(self)))
     invariant(keys_kept(W(self)) and keys_kept(R(self)) and keys_kept(S(self)) and keys_kept(U(self)))
     invariant(alarms_cleared(S(self)))
     invariant(alarms_progress(U(self), keys, idx))
@@ -127,6 +132,7 @@ def _():
     invariant(is_obj(self.addr))
     invariant(core(self))
     invariant(ping_untouched(self))
+    invariant(keys_kept(X(self)))
     invariant(keys_kept(W(self)) and keys_kept(R(self)) and keys_kept(S(self)) and keys_kept(U(self)))
     invariant(alarms_cleared(S(self)) and alarms_cleared(U(self)))
     invariant(alarms_progress(W(self), keys, idx))
@@ -138,6 +144,7 @@ def _():
     invariant(is_obj(self.addr))
     invariant(core(self))
     invariant(ping_untouched(self))
+    invariant(keys_kept(X(self)))
     invariant(keys_kept(W(self)) and keys_kept(R(self)) and keys_kept(S(self)) and keys_kept(U(self)))
     invariant(alarms_cleared(S(self)) and alarms_cleared(U(self)) and alarms_cleared(W(self)))
     invariant(alarms_progress(R(self), keys, idx))
@@ -148,6 +155,7 @@ def _():
     invariant(is_obj(self.addr))
     invariant(core(self))
     invariant(ping_untouched(self))
+    invariant(keys_kept(X(self)))
     invariant(keys_kept(W(self)) and keys_kept(R(self)) and keys_kept(U(self)))
     invariant(alarms_cleared(S(self)) and alarms_cleared(U(self)) and alarms_cleared(W(self)) and alarms_cleared(R(self)))
     invariant(fail_progress(S(self), keys, idx, reason))
@@ -158,6 +166,7 @@ def _():
     invariant(is_obj(self.addr))
     invariant(core(self))
     invariant(ping_untouched(self))
+    invariant(keys_kept(X(self)))
     invariant(keys_kept(W(self)) and keys_kept(R(self)))
     invariant(alarms_cleared(S(self)) and alarms_cleared(U(self)) and alarms_cleared(W(self)) and alarms_cleared(R(self)))
     invariant(all_failed(S(self), reason))
@@ -169,6 +178,7 @@ def _():
     invariant(is_obj(self.addr))
     invariant(core(self))
     invariant(ping_untouched(self))
+    invariant(keys_kept(X(self)))
     invariant(Q(self) == old(Q(self)))      # (local-free: the code's `queue` was read from it before the loop)
     invariant(alarms_cleared(S(self)) and alarms_cleared(U(self)) and alarms_cleared(W(self)) and alarms_cleared(R(self)))
     invariant(all_failed(S(self), reason) and all_failed(U(self), reason) and all_failed(W(self), reason) and all_failed(R(self), reason))
@@ -179,7 +189,7 @@ def _():
     decreases(dq_len(Q(self)))
 
 
-@contract('mqtt.client.base.MQTTBaseProtocol.connectionLost', props=['C04', 'C11', 'C12', 'C13', 'C15', 'C07', 'C18', 'C16'],
+@contract('mqtt.client.base.MQTTBaseProtocol.connectionLost', props=['C04', 'C11', 'C12', 'C13', 'C15', 'C07', 'C18', 'C16', 'C06'],
           classes=PROFILES, deadline=1500)
 def _(self: Ref['mqtt.client.pubsubs.MQTTProtocol'], reason: Any):
     requires(is_obj(self.addr))
@@ -206,3 +216,5 @@ def _(self: Ref['mqtt.client.pubsubs.MQTTProtocol'], reason: Any):
                     isa(last_alloc(), 'DelayedCall') and is_fresh(last_alloc()) and last_alloc().t_status == 0
                     and last_alloc().t_fn == self.onDisconnection and last_alloc().t_arg == reason
                     and num(last_alloc().t_delay) * 10 == 1))
+    # the inbound QoS 2 window survives the loss untouched (C06, see doConnectionLost)
+    ensures(keys_kept(X(self)))
